@@ -130,6 +130,11 @@ def run(tier='quick'):
     # ---- R5 ----------------------------------------------------------------------------
     _codec_agreement(prog, chk, R5, maps + tmaps)
 
+    R14 = chk.rule('R14', 'a group of writes that create_track / update() make only under a condition over snapshot fields '
+                          'stores no field the condition does not mention, unless the condition is proved always true '
+                          '(a disjunct tests a list non-empty that its conversion helper pads to a positive minimum on '
+                          'every return) or the field has another, unconditional location: otherwise a sparse snapshot '
+                          'that carries only such a field is accepted and the field is silently dropped', floor=2)
     # ---- R4 ----------------------------------------------------------------------------
     reps = representative_versions(prog, order, v1lo, v1hi, v2lo, v2hi)
     nfields = 0
@@ -146,6 +151,8 @@ def run(tier='quick'):
         nfields = nf
         for c in calls:
             getattr(chk, c[0])(*c[1], **c[2])
+    if not any(c[0] in ('ok', 'violation') and c[1] and c[1][0] == 'R14' for calls, _ in results for c in calls):
+        chk.fail_broken('R14: no conditional write group found in create_track / update()')
     chk.extra['representative_versions'] = ['%s %s' % (g, order[v]) for g, v in reps]
     rowrules.fetch_widths(prog, chk, R2, maps + tmaps)
     R10 = chk.rule('R10', 'every write path of the 1.x performance blobs applies the decode-after-encode guard: a snapshot '
@@ -271,7 +278,166 @@ def _range_worker(args):
                 chk.ok(R4, inst + ' lossy location %s complemented by every other written location' % S(lossy), where_s)
     if gen == 'v2':
         _role_pairing(prog, chk, R4, M, asnap, aupd, ver)
+    for which, a, W in (('update', aupd, wu), ('create_track', acre, wc)):
+        _conditional_write_coverage(prog, chk, 'R14', gen, ver, which, a, W, M.fields)
     return chk.calls, nfields
+
+
+def _disjuncts(t):
+    # a predicate helper is its (inlined) result
+    hops = 0
+    while t and t[0] in ('call', 'callm') and len(t) > 3 and t[3] is not None and hops < 6 and \
+            not (t[0] == 'callm' and isinstance(t[-1], str) and len(t) > 4):
+        t = t[3]
+        hops += 1
+    if t and t[0] == 'op' and t[1] == '||':
+        out = []
+        for a in t[2]:
+            out.extend(_disjuncts(a))
+        return out
+    return [t]
+
+
+def _padded_member(prog, qualname, member):
+    """Does every return of the helper `qualname` hand back a local whose container member `member`
+    holds at least k > 0 elements?  Accepted shapes, as top-level statements of the body with
+    nothing but returns of that local after them:  if (x.m.size() < k) x.m.resize(k);   x.m.resize(k);
+    while (x.m.size() < k) x.m.push_back / emplace_back(..).  Returns k or None."""
+    from .. import guards
+    from . import c15
+    fs = [f for f in prog.by_name(qualname) if f.body is not None and not f.is_pattern]
+    if len(fs) != 1:
+        return None
+    f = fs[0]
+
+    def literal_value(n):
+        v = c15.const_value(n, f)
+        return int(v) if isinstance(v, (int, float)) and not isinstance(v, bool) and v == int(v) else None
+    stmts = children(f.body)
+    rets = [x for x in walk(f.body) if x.get('kind') == 'ReturnStmt']
+    if not rets:
+        return None
+    rv = set()
+    for r in rets:
+        c = children(r)
+        e = strip(c[0], explicit=True) if c else None
+        while e is not None and e.get('kind') in ('CXXConstructExpr', 'MaterializeTemporaryExpr', 'CXXBindTemporaryExpr',
+                                                   'ExprWithCleanups') and len(children(e)) == 1:
+            e = strip(children(e)[0], explicit=True)
+        rv.add(guards.canon(e) if e is not None and e.get('kind') == 'DeclRefExpr' else None)
+    if len(rv) != 1 or None in rv:
+        return None
+    base = rv.pop()
+    path = base + '.' + member
+
+    def mcall(n, names):
+        n = strip(n, explicit=True)
+        if n.get('kind') == 'ExprWithCleanups' and len(children(n)) == 1:
+            n = strip(children(n)[0], explicit=True)
+        if n.get('kind') != 'CXXMemberCallExpr':
+            return None
+        callee = strip(children(n)[0])
+        if callee.get('name') in names and children(callee) and guards.canon(children(callee)[0]) == path:
+            return children(n)[1:]
+        return None
+
+    def size_lt(cond):
+        cond = strip(cond, explicit=True)
+        if cond.get('kind') == 'BinaryOperator' and cond.get('opcode') in ('<', '<='):
+            a, b = children(cond)
+            if guards.canon(a) == path + '.size()':
+                k = literal_value(b)
+                if isinstance(k, int) and not isinstance(k, bool):
+                    return k if cond['opcode'] == '<' else k + 1
+        return None
+
+    def single(n):
+        while n.get('kind') == 'CompoundStmt' and len(children(n)) == 1:
+            n = children(n)[0]
+        return n
+
+    for i, st in enumerate(stmts):
+        k = None
+        if st.get('kind') == 'IfStmt' and len(children(st)) == 2:
+            need = size_lt(children(st)[0])
+            args = mcall(single(children(st)[1]), ('resize',))
+            if need and args:
+                got = literal_value(args[0])
+                if isinstance(got, int) and got >= need > 0:
+                    k = need
+        elif st.get('kind') == 'WhileStmt' and len(children(st)) == 2:
+            need = size_lt(children(st)[0])
+            if need and need > 0 and mcall(single(children(st)[1]), ('push_back', 'emplace_back')) is not None:
+                k = need
+        else:
+            args = mcall(st, ('resize',))
+            if args:
+                got = literal_value(args[0])
+                if isinstance(got, int) and got > 0:
+                    k = got
+        if k is None:
+            continue
+        rest = stmts[i + 1:]
+        if all(r.get('kind') == 'ReturnStmt' or not any(
+                (x.get('referencedDecl') or {}).get('id') == base[1:].split(':')[0] for x in walk(r)) for r in rest):
+            return k
+    return None
+
+
+def _always_true(prog, cond):
+    """(proved, reason): one disjunct of the condition is !empty(m) for a list m that a conversion
+    helper pads to a positive minimum on every return."""
+    for d in _disjuncts(cond):
+        if not (d and d[0] == 'op' and d[1] == '!' and d[2] and d[2][0] and d[2][0][0] == 'op' and d[2][0][1] == 'empty'):
+            continue
+        x = d[2][0][2][0] if d[2][0][2] else None
+        # the list may have travelled through further helpers that hand it on as a member of their result
+        hops = 0
+        while x and x[0] == 'callm' and isinstance(x[1], str) and isinstance(x[-1], str) and hops < 6:
+            k = _padded_member(prog, x[1], x[-1].split('.')[-1])
+            if k:
+                return True, '%s pads %s to %d entries on every return, so the test that it is non-empty always holds' % (
+                    _short(x[1]).split('::')[-1], x[-1].split('.')[-1], k)
+            x = x[3] if len(x) > 4 else None
+            hops += 1
+    return False, ''
+
+
+def _conditional_write_coverage(prog, chk, rid, gen, ver, which, a, W, fields):
+    f = a.func
+    pname = [p.get('name') for p in f.params if 'track_snapshot' in (p.get('type') or '')]
+    if not pname:
+        return
+    pname = pname[0]
+    groups = {}
+    for w in a.writes:
+        for c in w.conds:
+            cins = fm.ins_of(c, pname)
+            if cins:
+                groups.setdefault(id(c), (c, cins, []))[2].append(w)
+    for c, cins, ws in groups.values():
+        gated = {}
+        for w in ws:
+            for x in fm.ins_of(w.value, pname):
+                if x in fields:
+                    gated.setdefault(x, set()).add((w.table, w.column, w.disc))
+        tables = sorted({w.table for w in ws})
+        inst = '%s (%s..) %s: writes of %s under a condition over %s' % (gen, ver, which, ','.join(tables), sorted(cins))
+        where = locstr(f.node)
+        # a field is at risk when the condition does not mention it and every location it is written to is gated
+        risk = sorted(x for x, locs in gated.items() if x not in cins and
+                      not any((k[0], k[1], k[2]) not in locs for k in W.get(x, ())))
+        if not risk:
+            chk.ok(rid, inst + ' - every field stored only there is mentioned', where)
+            continue
+        proved, why = _always_true(prog, c)
+        if proved:
+            chk.ok(rid, inst + ' - condition always true: ' + why, where, detail={'fields_not_mentioned': risk})
+        else:
+            chk.violation(rid, '%s|%s|%s stored only under a condition that ignores it' % (gen, which, ','.join(risk)), where,
+                          '%s: the fields %s are stored nowhere else and the condition does not mention them (nor is it '
+                          'proved always true): a snapshot that carries only such a field is accepted and reads back '
+                          'without it' % (inst, risk))
 
 
 _LOSSY = {}
